@@ -1,6 +1,7 @@
 import Dashu.Props.C04
 import Dashu.Props.C01Dispatch
 import Dashu.Model.Ratio.PowGuard
+import Dashu.Proofs.Ratio.PowGuard
 /-
   C04 round 6: `RBig::pow` / `Relaxed::pow` WITH the allocation panics of the two integer powers under `Repr::pow`
   (`Model/Ratio/PowGuard.powChecked`, what the driver executes for `qp.pow`).
@@ -11,6 +12,10 @@ import Dashu.Model.Ratio.PowGuard
   (3) outside the guard the result is `pow x n`: reduced and exactly `x ^ n` (RBig), same value and invariant (Relaxed);
   (4) a panic is never `DivideByZero` or anything else than the documented allocation panic, and on the
       `exp.checked_mul(shift)` branch the exact result has more than `2^64` bits (it cannot be stored).
+  (5) (64-bit words, what the harness runs) the panic is raised ONLY when the exact result cannot be stored anyway: a
+      component of the exact power has at least `2^62` bits.
+  (6) histories: a guarded run (`runG`, what the driver executes for `qp.prog`) is the plain run, or the plain run of a prefix
+      followed by the allocation panic of a `pow` step; the history theorems (invariants, values) carry over.
   Kept apart from Props/C04 because it imports C01's proof files.
 -/
 namespace Dashu.Props.C04Pow
@@ -20,6 +25,7 @@ open Dashu.Model Dashu.Model.Ratio Dashu.Props.C01Dispatch
 theorem pow_guard_is_proved_class (W v n : Nat) : upowPanics W v n = powAllocPanics W v n := by
   unfold upowPanics powAllocPanics
   rw [upowK_eq]
+  rfl
 
 /-- (3a) below the guard: the stored pair is `pow x n` -/
 theorem pow_checked_ok (W : Nat) (x : Q) (n : Nat)
@@ -100,9 +106,160 @@ theorem pow_shift_overflow_panics (W : Nat) (x : Q) (n : Nat)
     · exact .inl (powShiftOverflows_huge _ _ h)
     · exact .inr (powShiftOverflows_huge _ _ h)
 
+/-- (5) **the allocation panic is never spurious** (64-bit words): whenever `pow` panics, the exact numerator or the exact
+    denominator of `x ^ n` has at least `2^62` bits — the value the property asks for does not fit any memory.  Every
+    branch of the guard: result buffer of `pow_word_base` (`exp / wexp + 1` words) / `pow_dword_base` (`2·exp` words),
+    `exp.checked_mul(shift)`, `Buffer::allocate` of the final `<<` on an inline / heap power. -/
+theorem pow_panics_only_beyond_memory (x : Q) (n : Nat) (k : PanicKind) (h : powChecked 64 x n = .error k) :
+    k = .allocTooMuch ∧ (2 ^ (2 ^ 62) ≤ x.num.natAbs ^ n ∨ 2 ^ (2 ^ 62) ≤ x.den ^ n) := by
+  rcases pow_checked_cases 64 x n with c | c
+  · rw [c.1] at h; cases h
+  · rw [c.1] at h
+    cases h
+    refine ⟨rfl, ?_⟩
+    rcases c.2 with c | c
+    · exact .inl (pow_panic_only_beyond_memory _ _ c)
+    · exact .inr (pow_panic_only_beyond_memory _ _ c)
+
+/-- **RBig::pow end to end (64-bit words)**: reduced and exactly `x ^ n`, or the documented allocation panic on a result
+    with a component of at least `2^62` bits -/
+theorem rbig_pow_exact_or_beyond_memory (x : Q) (n : Nat) (hx : Reduced x) :
+    (∃ r, powChecked 64 x n = .ok r ∧ Reduced r ∧ r.val = x.val ^ n) ∨
+    (powChecked 64 x n = .error .allocTooMuch ∧ (2 ^ (2 ^ 62) ≤ x.num.natAbs ^ n ∨ 2 ^ (2 ^ 62) ≤ x.den ^ n)) := by
+  rcases rbig_pow_checked_exact 64 x n hx with h | h
+  · exact .inl h
+  · exact .inr ⟨h, (pow_panics_only_beyond_memory x n _ h).2⟩
+
+/-- **Relaxed::pow, complete**: for an operand meeting the Relaxed invariant either a pair meeting it again whose value
+    is exactly `x ^ n`, or the documented allocation panic -/
+theorem relaxed_pow_checked_exact (W : Nat) (x : Q) (n : Nat) (hx : RelaxedInv x) :
+    (∃ r, powChecked W x n = .ok r ∧ RelaxedInv r ∧ r.val = x.val ^ n) ∨ powChecked W x n = .error .allocTooMuch := by
+  rcases pow_checked_cases W x n with h | h
+  · exact .inl ⟨_, h.1, relaxed_pow x n hx⟩
+  · exact .inr h.1
+
+/-- **Relaxed = RBig for `pow`, panics included**: a Relaxed operand `x` and an RBig operand `y` denoting the same number —
+    whenever both powers are returned they denote the same number, and `canonicalize` of the Relaxed result is the stored
+    RBig pair.  (The two may differ in WHETHER they panic: the stored pairs differ by a common odd factor, e.g. `9/3` and
+    `3/1`, so their result buffers reach `MAX_CAPACITY` at different exponents — by `pow_panics_only_beyond_memory` only
+    where the exact result has at least `2^62` bits.) -/
+theorem relaxed_pow_checked_equals_rbig (W : Nat) (x y r s : Q) (n : Nat) (hx : RelaxedInv x) (hy : Reduced y)
+    (hv : x.val = y.val) (h1 : powChecked W x n = .ok r) (h2 : powChecked W y n = .ok s) :
+    r.val = s.val ∧ Reduced s ∧ RelaxedInv r := by
+  rcases pow_checked_cases W x n with c | c
+  · rcases pow_checked_cases W y n with d | d
+    · rw [c.1] at h1; rw [d.1] at h2
+      cases h1; cases h2
+      have a := relaxed_pow x n hx
+      have b := Dashu.Props.C04.rbig_pow_exact y n hy
+      exact ⟨by rw [a.2, b.2, hv], b.1, a.1⟩
+    · rw [d.1] at h2; cases h2
+  · rw [c.1] at h1; cases h1
+
+-- the two representations of 3 differ in whether `pow(20·(2^58 − 1))` panics: 9^n asks `pow_word_base` for n/20 + 1 words, 3^n for n/40 + 1
+example : upowPanics 64 9 (20 * (2 ^ 58 - 1)) = true ∧ upowPanics 64 3 (20 * (2 ^ 58 - 1)) = false ∧
+    upowPanics 64 1 (20 * (2 ^ 58 - 1)) = false := by decide +kernel
+example : RelaxedInv ⟨9, 3⟩ ∧ Reduced ⟨3, 1⟩ ∧ (⟨9, 3⟩ : Q).val = (⟨3, 1⟩ : Q).val := by
+  refine ⟨by decide, by decide, ?_⟩
+  simp [Q.val]; norm_num
+
 /-- the class is not empty: `(4/1).pow(2^63)` and `(1/4).pow(2^63)` panic; `(-1/1).pow(2^64 - 1)` does not -/
 example : powShiftOverflows (4 : Int).natAbs (2 ^ 63) = true := powShiftOverflows_witness
 example : powChecked 64 ⟨1, 4⟩ (2 ^ 63) = .error .allocTooMuch :=
   (pow_shift_overflow_panics 64 ⟨1, 4⟩ (2 ^ 63) (.inr powShiftOverflows_witness)).1
+
+-- ------------------------------------------------------------------ histories with the guarded pow (`runG`, op `qp.prog`)
+
+/-- a guarded step is the plain step, or the allocation panic of a `pow` step whose guard fires -/
+theorem stepG_cases (W : Nat) (env : List Reg) (op : Op) :
+    stepG W env op = step env op ∨
+    (stepG W env op = .panic .allocTooMuch ∧
+      ∃ i n a, op = .pow i n ∧ env[i]? = some a ∧ powChecked W a.q n = .error .allocTooMuch) := by
+  cases op with
+  | pow i n =>
+    simp only [stepG, step]
+    cases h : env[i]? with
+    | none => left; rfl
+    | some a =>
+      rcases pow_checked_cases W a.q n with c | c
+      · left; simp only [c.1, liftQ]
+      · right; exact ⟨by simp only [c.1, liftQ], i, n, a, rfl, h, c.1⟩
+  | _ => left; rfl
+
+/-- **a guarded run is the plain run, or the plain run of a prefix followed by the allocation panic of a `pow` step** -/
+theorem runG_cases (W : Nat) (ops : List Op) : ∀ env : List Reg,
+    runG W ops env = run ops env ∨
+    ∃ k i n a, k < ops.length ∧ ops[k]? = some (.pow i n) ∧
+      run (ops.take k) env = ((runG W ops env).1, .done) ∧ (runG W ops env).2 = .panic .allocTooMuch ∧
+      (runG W ops env).1[i]? = some a ∧ powChecked W a.q n = .error .allocTooMuch := by
+  induction ops with
+  | nil => intro env; left; rfl
+  | cons op ops ih =>
+    intro env
+    rcases stepG_cases W env op with h | ⟨h, i, n, a, hop, ha, hp⟩
+    · simp only [runG, run, h]
+      cases hs : step env op with
+      | ok r =>
+        simp only []
+        rcases ih (env ++ [r]) with e | ⟨k, i, n, a, hk, hget, hrun, hstop, ha, hp⟩
+        · left; exact e
+        · right
+          refine ⟨k + 1, i, n, a, by simp; omega, by simpa using hget, ?_, hstop, ha, hp⟩
+          simp only [List.take_succ_cons, run, hs]
+          exact hrun
+      | panic k => left; rfl
+      | bad => left; rfl
+    · right
+      refine ⟨0, i, n, a, by simp, by simp [hop], ?_, ?_, ?_, hp⟩
+      · simp [runG, h, run]
+      · simp [runG, h]
+      · simp [runG, h, ha]
+
+/-- **history theorem with the allocation panic of `pow`** ("every RBig ever produced", guarded runs): every register of
+    every guarded run — also those produced before a panic — satisfies the invariant of its type -/
+theorem history_invariant_guarded (W : Nat) (ops : List Op) (env : List Reg) (henv : ∀ r ∈ env, r.Inv) :
+    ∀ r ∈ (runG W ops env).1, r.Inv := by
+  rcases runG_cases W ops env with e | ⟨k, _, _, _, _, _, hrun, _⟩
+  · rw [e]; exact Dashu.Props.C04.history_invariant ops env henv
+  · have := Dashu.Props.C04.history_invariant (ops.take k) env henv
+    rw [hrun] at this
+    exact this
+
+/-- **values of guarded runs**: a guarded run computes exactly the value-level interpretation of the executed steps and
+    stops with `DivideByZero` exactly where the value-level program divides by zero — or with the allocation panic at a
+    `pow` step, and then (64-bit words) a component of that step's exact result has at least `2^62` bits -/
+theorem history_values_guarded (ops : List Op) (env : List Reg) (henv : ∀ r ∈ env, r.Inv) :
+    match (runG 64 ops env).2 with
+    | .done => Spec.run ops (env.map Reg.val) = ((runG 64 ops env).1.map Reg.val, true)
+    | .panic k =>
+      (k = .divideByZero ∧ Spec.run ops (env.map Reg.val) = ((runG 64 ops env).1.map Reg.val, false)) ∨
+      (k = .allocTooMuch ∧ ∃ j i n a, ops[j]? = some (.pow i n) ∧ (runG 64 ops env).1[i]? = some a ∧
+        Spec.run (ops.take j) (env.map Reg.val) = ((runG 64 ops env).1.map Reg.val, true) ∧
+        (2 ^ (2 ^ 62) ≤ a.q.num.natAbs ^ n ∨ 2 ^ (2 ^ 62) ≤ a.q.den ^ n))
+    | .bad => True := by
+  rcases runG_cases 64 ops env with e | ⟨k, i, n, a, _, hget, hrun, hstop, ha, hp⟩
+  · rw [e]
+    have := Dashu.Props.C04.history_values ops env henv
+    cases hs : (run ops env).2 with
+    | done => rw [hs] at this; exact this
+    | panic k => rw [hs] at this; exact .inl this
+    | bad => trivial
+  · rw [hstop]
+    right
+    refine ⟨rfl, k, i, n, a, hget, ha, ?_, (pow_panics_only_beyond_memory a.q n _ hp).2⟩
+    have := Dashu.Props.C04.history_values (ops.take k) env henv
+    rw [hrun] at this
+    exact this
+
+-- non-vacuity: below the guard (a non-trivial odd word base, a Relaxed pair with a common odd factor)
+example : upowPanics 64 3 5 = false ∧ upowPanics 64 12 41 = false := by decide +kernel
+example : powChecked 64 ⟨9, 3⟩ 2 = .ok ⟨81, 9⟩ ∧ powChecked 64 ⟨3, 1⟩ 2 = .ok ⟨9, 1⟩ ∧
+    powChecked 64 ⟨-12, 5⟩ 3 = .ok ⟨-1728, 125⟩ := by decide +kernel
+-- on the guard: the up-front result buffer of `pow_word_base` (3^(usize::MAX)), the final shift (2^(usize::MAX))
+example : upowPanics 64 3 (2 ^ 64 - 1) = true ∧ upowPanics 64 2 (2 ^ 64 - 1) = true := by decide +kernel
+-- a guarded program: ((-4/1)^2)⁻¹ = 1/16, then (1/16)^(2^62) panics (2^62 · 4 = 2^64); the registers produced before stay
+example : (runG 64 [.pow 0 2, .un .inv 1, .pow 2 (2 ^ 62), .un .neg 0] [⟨.R, ⟨-4, 1⟩⟩]).1.map (·.q) = [⟨-4, 1⟩, ⟨16, 1⟩, ⟨1, 16⟩] ∧
+    (match (runG 64 [.pow 0 2, .un .inv 1, .pow 2 (2 ^ 62), .un .neg 0] [⟨.R, ⟨-4, 1⟩⟩]).2 with
+      | .panic k => k == .allocTooMuch | _ => false) = true := by decide +kernel
 
 end Dashu.Props.C04Pow
